@@ -59,9 +59,15 @@ class Prop(BaseProp):
         if not impl.lower_is_charwise(text):
             return Verdict('skip', case)
         lic = P.licensing(table)
+        # the entry point is a private helper: it is observed directly while it exists under its name; after a rewrite that
+        # renames it, through the public comparisons it serves (the text is equivalent to what a fresh instance parses it to,
+        # and not to that joined with a license it does not mention)
+        hook = getattr(lic, '_parse_and_simplify', None)
+        if hook is None:
+            return self.eval_text_public(drv, case, lic)
         for kw in case['order']:
             want = impl.outcome(lambda: P.fresh_licensing(table).parse(text, **kw))
-            got = impl.outcome(lambda: lic._parse_and_simplify(text, **kw))
+            got = impl.outcome(lambda: hook(text, **kw))
             if not P.is_ok(want) or not P.is_ok(got):
                 if P.err_class(want) != P.err_class(got):
                     return Verdict('spec', case, '_parse_and_simplify(%r) fails differently from parse' % (kw,), impl=P.err_class(got), model=P.err_class(want))
@@ -81,7 +87,7 @@ class Prop(BaseProp):
         if P.is_ok(fo):
             ft = impl.tree_c(fo[1])
             for kw in case['order'][:3]:
-                got = impl.outcome(lambda: lic._parse_and_simplify(fo[1], **kw))
+                got = impl.outcome(lambda: hook(fo[1], **kw))
                 if not P.is_ok(got):
                     return Verdict('spec', case, '_parse_and_simplify(object parsed elsewhere, %r) fails' % (kw,), impl=got[:2])
                 gt = impl.tree_c(got[1])
@@ -94,6 +100,24 @@ class Prop(BaseProp):
             if impl.tree_c(fo[1]) != ft:
                 return Verdict('spec', case, '_parse_and_simplify changed the object it was given', impl=impl.tree_c(fo[1]), model=ft)
         return Verdict('ok', case, nontrivial=True, tags=['stream=entry-point'])
+
+    def eval_text_public(self, drv, case, lic):
+        table, text = case['table'], case['text']
+        for kw in case['order']:
+            want = impl.outcome(lambda: P.fresh_licensing(table).parse(text, **kw))
+            if not P.is_ok(want):
+                got = impl.outcome(lambda: lic.is_equivalent(text, text, **kw))
+                if P.err_class(got) != P.err_class(want):
+                    return Verdict('spec', case, 'is_equivalent(text, text, %r) fails differently from parse' % (kw,), impl=P.err_class(got), model=P.err_class(want))
+                continue
+            ref = want[1]
+            more = impl.le.AND(ref, impl.le.LicenseSymbol('zq9-not-in-the-text'))
+            a = impl.outcome(lambda: lic.is_equivalent(text, ref, **kw))
+            b = impl.outcome(lambda: lic.is_equivalent(text, more, **kw))
+            if not (P.is_ok(a) and a[1] is True and P.is_ok(b) and b[1] is False):
+                return Verdict('spec', case, 'is_equivalent(text, what a fresh instance parses the text to / that AND another license, %r)' % (kw,),
+                               impl=[a[:2], b[:2]], model=[True, False])
+        return Verdict('ok', case, nontrivial=True, tags=['stream=entry-point (public)'])
 
     def exhaustive(self, drv, index, nworkers, maxleaves):
         atoms = [[T('sym'), 'a', False], [T('sym'), 'A', False], [T('sym'), 'a', True], [T('with'), 'a', False, 'A', False]]
